@@ -31,6 +31,9 @@ def run(ctx, repo):
     RX.r_simple_key_fits(ctx, repo)
     RX.r_block_hint_leading(ctx, repo)
     RX.r_analyze_special(ctx, repo)
+    RX.r_timestamp_exact(ctx, repo)
+    RX.r_alias_key_fresh(ctx, repo)
+    RX.r_escape_introducer(ctx, repo)
 
 if __name__ == '__main__':
     sys.exit(report.main('C02', 'other', run))
